@@ -123,7 +123,7 @@ class C14:
                    'no thread interleavings: kernpy promises no thread safety and C14 does not quantify over schedules']
     PROBES = ['natural_raise', 'raise_mid_export', 'interrupt_delivered', 'memerr_delivered', 'range_inside_split', 'options_object_reused',
               'doc_with_error_tokens', 'io_fault_on_dump', 'compared_with_fresh', 'background_ops', 'graph_compared', 'two_imports_battery',
-              'dump_compared', 'args_checked', 'caller_edited_a_result']
+              'dump_compared', 'args_checked', 'caller_edited_a_result', 'reentrant_callback_delivered']
 
     # ================================================================ plan
     def gen_plan(self, seed, index, tier):
@@ -180,6 +180,11 @@ class C14:
                 op = {'op': 'graph', 'to': rng.choice(['file', 'file', 'stdout'])}
             if faulty and kind in ('dumps', 'query', 'export_reused', 'graph') and frng.random() < 0.22:
                 op['interrupt'] = {'k_u': frng.randrange(1 << 30), 'payload': frng.choice(['SimInterrupt', 'MemoryError'])}
+            elif faulty and kind in ('dumps', 'query', 'export_reused') and frng.random() < 0.12:
+                # re-entrancy: at a seeded line event of this operation a callback (signal handler, finalizer, logging hook)
+                # makes a nested read-only call on ANOTHER document
+                op['reenter'] = {'k_u': frng.randrange(1 << 30), 'which': frng.randrange(2),
+                                 'nested': frng.choice(['dumps', 'dumps_akern', 'dumps_filtered', 'tokens', 'spine_types', 'loads', 'measure'])}
             ops.append(op)
         fsplan = {'io_seed': erng.randrange(1 << 30), 'chunking': erng.choice(['whole', 'small', 'tiny']), 'locale': 'utf-8', 'faults': [], 'actor': []}
         l_targets = sorted({f'{PREFIX}/L/{o["name"]}' for o in ops if o['op'] == 'dump'} | ({f'{PREFIX}/L/g.dot'} if any(o['op'] == 'graph' and o.get('to') == 'file' for o in ops) else set()))
@@ -588,13 +593,50 @@ class C14:
                     after_op('interrupted-' + k, idx)
                     continue
                 # ---- the same operation on a freshly imported copy, imported at this moment and never touched before
+                nested_fn = None
+                if 'reenter' in op:
+                    o_doc = others[op['reenter']['which'] % len(others)]
+                    o_text = other_texts[op['reenter']['which'] % len(other_texts)]
+                    nk = op['reenter']['nested']
+                    if o_doc is not None:
+                        nested_fn = {
+                            'dumps': lambda: kp.dumps(o_doc, encoding=kp.Encoding.eKern),
+                            'dumps_akern': lambda: kp.dumps(o_doc, encoding=kp.Encoding.agnosticExtendedKern),
+                            'dumps_filtered': lambda: kp.dumps(o_doc, include={CAT.NOTE_REST, CAT.STRUCTURAL}, exclude={CAT.DECORATION}, encoding=kp.Encoding.bEkern),
+                            'tokens': lambda: o_doc.get_all_tokens_encodings(),
+                            'spine_types': lambda: kp.spine_types(o_doc),
+                            'loads': lambda: kp.dumps(kp.loads(o_text)[0]),
+                            'measure': lambda: kp.dumps(o_doc, from_measure=1, to_measure=1),
+                        }[nk]
                 try:
                     Fd, _ = fresh()
                 except Exception as e:
                     add_v('import-raised', 'import-raised/fresh-copy', 'a document', type(e).__name__, index=idx)
                     continue
                 rF = call(lambda: run_op(Fd, op, 'F'))
-                rL = call(lambda: run_op(L, op, 'L'))
+                if nested_fn is not None:
+                    nested_ref = call(nested_fn)                     # the nested call on its own, as the reference
+                    try:
+                        replica2, _ = fresh()
+                    except Exception:
+                        continue
+                    total = inj.count_events(lambda: run_op(replica2, op, 'F'))
+                    if total <= 0:
+                        continue
+                    nested_got = {}
+
+                    def cb():
+                        nested_got['v'] = call(nested_fn)
+                    delivered, out = inj.run_with_callback(lambda: run_op(L, op, 'L'), 1 + op['reenter']['k_u'] % total, cb)
+                    rL = ('ok', out[1]) if out[0] == 'ok' else ('exc', type(out[1]).__name__)
+                    bump(faults, 'reentrant_callback')
+                    if delivered:
+                        bump(probes, 'reentrant_callback_delivered')
+                        if nested_got.get('v') != nested_ref:
+                            add_v('reentrancy', f'reentrancy/nested-{op["reenter"]["nested"]}-inside-{k}', *self._clip_pair(nested_ref, nested_got.get('v')),
+                                  op=k, nested=op['reenter']['nested'])
+                else:
+                    rL = call(lambda: run_op(L, op, 'L'))
                 faulted = sum(f.fired for f in fs.faults if not f.kind.startswith('eintr')) != fault_before
                 log.emit('client', k, self._op_abstract(op), digest_of(rL))
                 if faulted:
@@ -643,7 +685,7 @@ class C14:
         shape = digest_of([doc_abs.shape(), [self._op_abstract(o) for o in plan['ops']], sorted(f['kind'] for f in plan['fs'].get('faults', [])),
                            len(plan.get('damage', []))])
         return {'digest': log.digest(), 'events': log.seq, 'faults': faults, 'probes': probes, 'shape': shape,
-                'nontrivial': compared >= 3 and dumps_compared >= 1, 'config': plan['config'], 'hash_sensitive': any('interrupt' in o for o in plan['ops']), 'violations': viol,
+                'nontrivial': compared >= 3 and dumps_compared >= 1, 'config': plan['config'], 'hash_sensitive': any('interrupt' in o or 'reenter' in o for o in plan['ops']), 'violations': viol,
                 'extra': {'sum': {'ops_compared_with_fresh': compared}}}
 
     @staticmethod
